@@ -206,7 +206,7 @@ func init() {
 			tails := []int{0, 1, 3, 4, 5, 23, 24, 300}
 			tail := tails[c.Free(len(tails), "tail")]
 			content := pattern(tail, 7)
-			kind := c.Free(3, "content") // 0 ascii, 1 arbitrary bytes, 2 starts with an invalid UTF-8 byte
+			kind := c.Free(4, "content") // 0 ascii, 1 arbitrary bytes, 2 starts with an invalid UTF-8 byte, 3 valid text with U+FFFD
 			for i := range content {
 				switch kind {
 				case 0:
@@ -215,6 +215,8 @@ func init() {
 					if i == 0 {
 						content[i] = 0xff
 					}
+				case 3:
+					content[i] = []byte{0xEF, 0xBF, 0xBD}[i%3] // U+FFFD repeated (valid when the length is a multiple of 3)
 				}
 			}
 			input = append(input, content...)
@@ -225,7 +227,7 @@ func init() {
 	}
 
 	// (b) all byte strings of length <= 2, and length 3..4 over a reduced alphabet
-	alpha := []byte{0x00, 0x01, 0x17, 0x18, 0x19, 0x1a, 0x1b, 0x1c, 0x1f, 0x40, 0x41, 0x58, 0x5b, 0x5f, 0x61, 0x78, 0x7f, 0x80, 0x81, 0x98, 0xa0, 0xa1, 0xb8, 0xc0, 0xe0, 0xf5, 0xff}
+	alpha := []byte{0x00, 0x01, 0x17, 0x18, 0x19, 0x1a, 0x1b, 0x1c, 0x1f, 0x40, 0x41, 0x58, 0x5b, 0x5f, 0x61, 0x63, 0x78, 0x7f, 0x80, 0x81, 0x98, 0xa0, 0xa1, 0xb8, 0xbd, 0xbf, 0xc0, 0xe0, 0xef, 0xf5, 0xff}
 	short := &mc.Harness{
 		Name:     "C12/short-strings",
 		Isolated: true,
@@ -260,7 +262,7 @@ func init() {
 		{"map(1)", refcbor.AppendHead(nil, refcbor.Map, 1), 2},
 		{"bytes ab", refcbor.EncBytes([]byte("ab")), 3},
 		{"bytes 24", refcbor.EncBytes(bytes.Repeat([]byte{7}, 24)), 3},
-		{"text é", refcbor.EncText("é"), 4},
+		{"text é\ufffd", refcbor.EncText("é\ufffd"), 4},
 		{"text empty", refcbor.EncText(""), 4},
 	}
 	streams := &mc.Harness{
@@ -361,6 +363,9 @@ func init() {
 					for i := range wantB {
 						wantB[i] = 'a' + wantB[i]%26
 					}
+					if n >= 3 {
+						copy(wantB[n-3:], "\ufffd") // a valid character that is easily mistaken for a decoding error
+					}
 					enc.EncodeTextString(string(wantB))
 					method = 4
 				}
@@ -383,7 +388,7 @@ func init() {
 	register(&mc.Property{
 		ID:          "C12",
 		Level:       "model_checking",
-		Rule:        "choice-tree enumeration of decoder inputs: 256 initial bytes x per-width argument boundary values (0,4,23/24,255/256,65535/65536,2^31,2^32,2^63-1,2^63,2^64-16,2^64-1) x every truncation of the head x 8 amounts of content (shorter/equal/longer than declared; ASCII, arbitrary, invalid UTF-8) x 5 Decode* methods x reader chunking (deviation<=1); all byte strings of length <=2 and <=3 (quick) / <=4 (thorough) over a 27-byte alphabet x 5 methods; all decode-call sequences of depth <=3/4 over an 8-item menu with one mismatching method / chunking deviation; round trip of encoder output. Non-trivial = the reference made a verdict that the implementation had to match (accept with exact value and consumption, or reject); distinct by (input, method).",
+		Rule:        "choice-tree enumeration of decoder inputs: 256 initial bytes x per-width argument boundary values (0,4,23/24,255/256,65535/65536,2^31,2^32,2^63-1,2^63,2^64-16,2^64-1) x every truncation of the head x 8 amounts of content (shorter/equal/longer than declared; ASCII, arbitrary, invalid UTF-8) x 5 Decode* methods x reader chunking (deviation<=1); all byte strings of length <=2 and <=3 (quick) / <=4 (thorough) over a 31-byte alphabet (incl. the bytes of U+FFFD) x 5 methods; all decode-call sequences of depth <=3/4 over an 8-item menu with one mismatching method / chunking deviation; round trip of encoder output. Non-trivial = the reference made a verdict that the implementation had to match (accept with exact value and consumption, or reject); distinct by (input, method).",
 		Assumptions: []string{"refcbor head parser / UTF-8 validator are correct", "arguments between the enumerated boundary values behave like a neighbour of the same width class"},
 		Harnesses:   []*mc.Harness{heads, short, streams, rt},
 		Guard: func(s map[string]*mc.Stats) error {
